@@ -39,7 +39,8 @@ META = dict(
 LEAN_MODULES = ['Pyc.Model.Normals']
 
 BOUNDS = ('normal direction: |n x S|^2 <= 2^-41 (|S|^2 + k^2) |n|^2 and n.S > 0 (S exact sum of unit face normals, k incident corners); '
-          'unit length: |n.n - 1| <= 2^-20; implicit triangle normal: same with k = 1; tangent: |t.t - 1| <= 2^-20, '
+          'unit length: |n.n - 1| <= 2^-20; implicit triangle normal (edges are normalised before the cross product): angle to the exact '
+          'right-hand normal and |n.e|/|e| for both edges <= 2^-20 / sin(angle between the edges); tangent: |t.t - 1| <= 2^-20, '
           '(t.n)^2 |G|^2 <= 2^-36 A (S.S)^2 and |t x G|^2 <= 2^-36 A (S.S)^2 |t|^2, t.G > 0 '
           '(G = (S.S)T - (S.T)S exact, A = k * sum of squared lengths of the incident s directions)')
 EPS_LEN = Fr(1, 2 ** 20)
@@ -405,10 +406,13 @@ def dir_ok(n, S, k):
     return dot(n, S) > 0 and dot(c, c) <= EPS_DIR2 * (dot(S, S) + k * k) * dot(n, n)
 
 
-def par_ok(n, d):
-    """float vector n parallel to and oriented like the exact direction d (one contribution)"""
+def par_ok(n, d, e1, e2):
+    """float implicit normal n parallel to and oriented like the exact direction d = e1 x e2 (up to a
+    positive factor); the code normalises the edges BEFORE the cross product, so the direction error
+    grows with 1/sin(angle between the edges): bound 2^-20 / sin"""
     c = cross(n, d)
-    return dot(n, d) > 0 and dot(c, c) <= EPS_DIR2 * 2 * dot(d, d) * dot(n, n)
+    x = cross(e1, e2)
+    return dot(n, d) > 0 and dot(c, c) * dot(x, x) <= EPS_DIR2 * 2 * dot(d, d) * dot(n, n) * dot(e1, e1) * dot(e2, e2)
 
 
 def len_ok(n):
@@ -434,9 +438,9 @@ def check_tri_normals(obj, V, tris, model=None):
         bad = None
         if not len_ok(n):
             bad = 'is not a unit vector'
-        elif not par_ok(n, raw):
+        elif not par_ok(n, raw, e1, e2):
             bad = 'is not the right-hand normal of its vertices'
-        elif dot(n, e1) ** 2 > EPS_DIR2 * 2 * dot(e1, e1) or dot(n, e2) ** 2 > EPS_DIR2 * 2 * dot(e2, e2):
+        elif any(dot(n, e) ** 2 * dot(raw, raw) > EPS_DIR2 * 2 * dot(e, e) * dot(e1, e1) * dot(e2, e2) for e in (e1, e2)):
             bad = 'is not orthogonal to the edges'
         if bad:
             return ('trinormal', 'triangle %d with vertices %s: implicit normal %s %s (exact direction %s)'
@@ -445,7 +449,7 @@ def check_tri_normals(obj, V, tris, model=None):
             ans = model[i]
             kind, vec = ans.split(' ')
             m = tuple(Fr(x) for x in vec.split(','))
-            if not par_ok(n, m):
+            if not par_ok(n, m, e1, e2):
                 return None, 'triangle %d: model triNormal %s, implementation %s' % (i, ans, list(map(float, n)))
     return None, None
 
